@@ -6,7 +6,7 @@ Subject priority: after load, every rule of a subject precedes every rule of the
 import itertools
 
 from ..core import Check, Oracle, build_oracle
-from .. import mgmt, c07_subject, c07_filtered
+from .. import mgmt, c07_subject, c07_filtered, c07_values
 from ..specs import truthy, fmatch
 
 PROP = "C07"
@@ -151,13 +151,17 @@ def main():
         run(chk, 2500, 3)
         c07_subject.run(chk, soracle, 6000)
         c07_filtered.run(chk, soracle, 800)
+        c07_values.run(chk, 4000)
     else:
         run(chk, 250, 2)
         c07_subject.run(chk, soracle, 500)
         c07_filtered.run(chk, soracle, 80)
+        c07_values.run(chk, 300)
         if (chk.broken() or chk.anchor_changed) and not chk.spec_failures:
             run(chk, 1000, 3)
             c07_subject.run(chk, soracle, 3000, exhaustive=False)
+            if not chk.spec_failures:
+                c07_values.run(chk, 3000)
     chk.finish()
 
 
@@ -171,6 +175,14 @@ def replay(chk, soracle):
         for o in c07_filtered.run_impl(c):
             bad = bad or c07_filtered.spec_violation(c, o)
         print("replay (filtered loads):", c["loads"], "->", bad)
+        if bad:
+            print(f"VIOLATION property={chk.prop} replay={chk.replay_file}")
+            raise SystemExit(1)
+        print("replay passes: the implementation satisfies the spec on this input")
+        raise SystemExit(0)
+    if case.get("stratum") == "priority-values":
+        bad = c07_values.run_case(case["case"])
+        print("replay (priority values / named types):", case["case"], "->", bad)
         if bad:
             print(f"VIOLATION property={chk.prop} replay={chk.replay_file}")
             raise SystemExit(1)
